@@ -195,8 +195,21 @@ CHECKS = {
                    "epoll_wait (sleeping advances virtual time, possibly less than asked); checked: no dispatch before add+d, expiry order per priority, every poll timeout requested while a timer is pending is finite, "
                    "non-negative and ends no later than the earliest expiry + slack (1 ms + ticks, or 50 ms after jobs), bounded lateness, queries non-zero exactly while pending",
         level_note="trusted: the timer model; durations beyond one hour are judged by the requested timeouts only (the virtual run does not reach their expiry)",
-        stages=[rnd("timers", "c09", 100000, 3000000, essential=["three_pending_delete_nonhead", "duration_beyond_31bit_ms", "duration_beyond_32bit_ms", "duration_near_2_63", "duration_near_2_64",
+        stages=[rnd("timers", "c09", 50000, 3000000, essential=["three_pending_delete_nonhead", "duration_beyond_31bit_ms", "duration_beyond_32bit_ms", "duration_near_2_63", "duration_near_2_64",
                                                                    "zero_duration", "early_wakeup", "clock_tick", "job_throttle_seen", "delete_from_callback", "query_pending", "query_after_fire", "many_pending"])],
         assumptions=["the monotonic clock never goes backwards", "a timer whose expiry equals the current time to the nanosecond may be dispatched on the next iteration (strict comparison)"],
+    ),
+    "C10": dict(
+        title="event loop priorities are weak: no level is ever starved",
+        level="exploration",
+        design_ref="DESIGN.md section 4, C10",
+        technique="property testing of generated workloads under virtual time: trace invariants (3-iteration window per busy level, nested service)",
+        level_text="generated workloads (0-10 self-re-adding jobs / always-readable descriptors / zero-delay re-arming timers per priority, sources joining and leaving from inside callbacks, 30-300 "
+                   "iterations) run under virtual time with one interposed epoll_wait per iteration; over the dispatch trace: every level with a continuously ready source dispatches in every window of "
+                   "three iterations, and whenever a lower level dispatches every busy higher level dispatches in the same iteration",
+        level_note="trusted: the workload model (which sources are ready when); at most 11 descriptors are ready at once (epoll_wait harvests 12 events per iteration)",
+        stages=[rnd("work", "c10", 60000, 2000000, essential=["all_levels_busy_9_iterations", "higher_level_saturated", "jobs", "descriptors", "timers", "source_joined_midrun", "source_left_midrun",
+                                                                "nine_or_more_on_one_level", "job_only_level"])],
+        assumptions=["no exact dispatch ratios are checked, only the bounds the statement gives"],
     ),
 }
